@@ -26,18 +26,26 @@ type pmtPipe struct {
 	cond   *sync.Cond
 	buf    []byte
 	closed bool
+	held   bool // end-of-stream is not reported to readers before release() (scripted "the read error surfaces now")
 }
 
-func pmtNewPipe() *pmtPipe {
-	p := &pmtPipe{}
+func pmtNewPipe(held bool) *pmtPipe {
+	p := &pmtPipe{held: held}
 	p.cond = sync.NewCond(&p.mu)
 	return p
+}
+
+func (p *pmtPipe) release() {
+	p.mu.Lock()
+	p.held = false
+	p.cond.Broadcast()
+	p.mu.Unlock()
 }
 
 func (p *pmtPipe) Read(b []byte) (int, error) {
 	p.mu.Lock()
 	defer p.mu.Unlock()
-	for len(p.buf) == 0 && !p.closed {
+	for len(p.buf) == 0 && (!p.closed || p.held) {
 		p.cond.Wait()
 	}
 	if len(p.buf) == 0 {
@@ -88,6 +96,7 @@ func (a pmtAddr) String() string  { return string(a) }
 type pmtShared struct {
 	mu     sync.Mutex
 	pipes  []*pmtPipe
+	hold   bool // new pipes hold their end-of-stream until releaseReadErrors()
 	closed chan struct{}
 	once   sync.Once
 	nextID uint64
@@ -118,7 +127,7 @@ func (c *pmtConn) OpenStream(ctx context.Context) (transport.Stream, error) {
 		return nil, pmtErrClosed
 	default:
 	}
-	ab, ba := pmtNewPipe(), pmtNewPipe()
+	ab, ba := pmtNewPipe(c.sh.hold), pmtNewPipe(c.sh.hold)
 	c.sh.pipes = append(c.sh.pipes, ab, ba)
 	c.sh.nextID++
 	id := c.sh.nextID
@@ -156,6 +165,23 @@ func (c *pmtConn) Close() error {
 		c.sh.mu.Unlock()
 	})
 	return nil
+}
+
+// holdReadErrors: after a close of either end, blocked reads keep blocking until releaseReadErrors.
+func (c *pmtConn) holdReadErrors() {
+	c.sh.mu.Lock()
+	c.sh.hold = true
+	c.sh.mu.Unlock()
+}
+
+func (c *pmtConn) releaseReadErrors() {
+	c.sh.mu.Lock()
+	c.sh.hold = false
+	pipes := append([]*pmtPipe{}, c.sh.pipes...)
+	c.sh.mu.Unlock()
+	for _, p := range pipes {
+		p.release()
+	}
 }
 
 func (c *pmtConn) isClosed() bool {
